@@ -4,8 +4,15 @@ any prefix (C18).  Ported from the control flow of `Font.save` (Lib/defcon/objec
 
   * components are written one after the other; writing a component clears its dirty flag at once
     (`self.info.dirty = False`, `data["dirty"] = False`, `glyph.dirty = False`, …);
-  * a glyph set is written in two phases: each dirty glyph's file (`writeGlyph`, flag cleared),
-    and only at the end the listing (`writeContents`);
+  * one layer's save has a fixed order INSIDE (`Layer.save`, then `LayerSet.save`): each dirty glyph's
+    file (`writeGlyph`, flag cleared at once), then the file of each glyph scheduled for deletion is
+    removed (`deleteGlyph`; in-place saves only), then the listing (`writeContents`) — and only after it
+    the layer forgets its pending deletions (`_scheduledForDeletion.clear()`) —, then `layerinfo.plist`
+    (`writeLayerInfo`);
+  * a step can fail for two reasons: the ENVIRONMENT fails at it (`failAt k`: any step, once), or the
+    step's own CONTENT cannot be written (`faulty`: a component, a glyph or the layer info whose data
+    the writer rejects; it fails at exactly that step on every attempt until the content is corrected);
+    and opening a glyph set whose `contents.plist` names a file that is gone raises (`stale`);
   * a save-as over an existing destination goes through a temporary directory; when everything
     is written the destination is put aside, the temporary UFO moved in, and what was put aside
     dropped; when the temporary UFO cannot be moved in, whatever part of it arrived is removed and
@@ -25,6 +32,7 @@ structure Ufo where
   comps : List Nat := []
   files : List (Nat × Nat) := []      -- glyph id ↦ blob
   listing : List Nat := []            -- listed glyph ids
+  layerinfo : Nat := 0                -- layerinfo.plist of the glyph set
 deriving DecidableEq, Repr
 
 structure Font where
@@ -35,6 +43,13 @@ structure Font where
   path : Nat
   format : Nat
   dirty : Bool
+  /-- glyphs deleted (or renamed away) in memory whose file is still to be removed: `_scheduledForDeletion` -/
+  scheduled : List Nat := []
+  layerInfo : Nat := 0                -- in-memory layer info (colour, lib)
+  /-- CONTENT faults: components / glyphs / layer info whose own data cannot be written -/
+  badComps : List Nat := []
+  badGlyphs : List Nat := []
+  badLayerInfo : Bool := false
 deriving DecidableEq, Repr
 
 inductive Mode where
@@ -59,7 +74,9 @@ inductive Step where
   | writeComp (i : Nat)
   | openGlyphSet
   | writeGlyph (g : Nat)
+  | deleteGlyph (g : Nat)
   | writeContents
+  | writeLayerInfo
   | moveAside (p : Nat)
   | moveTemp (p : Nat)
   | dropAside
@@ -104,7 +121,9 @@ def plan (f : Font) (m : Mode) : List Step :=
   ((List.range f.comps.length).filter (fun i => isSaveAs m || f.compDirty.getD i false)).map Step.writeComp ++
   [Step.openGlyphSet] ++
   ((f.glyphs.map Prod.fst).filter (fun g => isSaveAs m || g ∈ f.glyphDirty)).map Step.writeGlyph ++
+  (if isSaveAs m then [] else f.scheduled.map Step.deleteGlyph) ++
   [Step.writeContents] ++
+  [Step.writeLayerInfo] ++
   (match m with
     | .saveAsOver p => [Step.moveAside p, Step.moveTemp p, Step.dropAside]
     | _ => [])
@@ -123,9 +142,20 @@ def exec (m : Mode) (w : World) : Step → World
     let w1 := putTarget w (target m) { u with files := (g, b) :: u.files.filter (fun x => x.1 ≠ g) }
     { w1 with font := { w1.font with glyphDirty := w1.font.glyphDirty.filter (· ≠ g) },
               gsContents := if g ∈ w1.gsContents then w1.gsContents else w1.gsContents ++ [g] }
-  | .writeContents =>
+  | .deleteGlyph g =>
+    -- `if glyphName in glyphSet: glyphSet.deleteGlyph(glyphName)`: the file goes, and the entry of the glyph set
     let u := getTarget w (target m)
-    putTarget w (target m) { u with listing := w.gsContents }
+    let w1 := putTarget w (target m) { u with files := u.files.filter (fun x => x.1 ≠ g) }
+    { w1 with gsContents := w1.gsContents.filter (· ≠ g) }
+  | .writeContents =>
+    -- `glyphSet.writeContents()`, and right after it (nothing in between can fail) the layer forgets what was
+    -- scheduled for deletion: `self._scheduledForDeletion.clear()` (save-as saves too)
+    let u := getTarget w (target m)
+    let w1 := putTarget w (target m) { u with listing := w.gsContents }
+    { w1 with font := { w1.font with scheduled := [] } }
+  | .writeLayerInfo =>
+    let u := getTarget w (target m)
+    putTarget w (target m) { u with layerinfo := w.font.layerInfo }
   | .moveAside p => { w with aside := lookup w.disk p, disk := remove w.disk p }
   | .dropAside => { w with aside := none }
   | .moveTemp p =>
@@ -170,6 +200,97 @@ def failTorn (p : Nat) (w : World) (part : Ufo) : World :=
 /-- a save that succeeds -/
 def save (m : Mode) (w : World) : World :=
   finalize m (cleanup (runSteps m w (plan w.font m)))
+
+/-! ### content faults, and a save attempt that stops at the first step that raises -/
+
+/-- the step's own content cannot be written -/
+def faulty (f : Font) : Step → Bool
+  | .writeComp i => decide (i ∈ f.badComps)
+  | .writeGlyph g => decide (g ∈ f.badGlyphs)
+  | .writeLayerInfo => f.badLayerInfo
+  | _ => false
+
+/-- `contents.plist` names a glyph whose file is gone: building the glyph set raises (`GlifLibError`) -/
+def stale (u : Ufo) : Bool := u.listing.any (fun g => !(u.files.any (fun x => x.1 = g)))
+
+/-- does this step raise in this world, without the environment failing? -/
+def stepFails (m : Mode) (w : World) : Step → Bool
+  | .openGlyphSet => stale (getTarget w (target m))
+  | s => faulty w.font s
+
+/-- the index of the first step that raises when the environment does not fail (`none`: all of them run) -/
+def faultAt (m : Mode) (w : World) : List Step → Option Nat
+  | [] => none
+  | s :: rest => if stepFails m w s then some 0 else (faultAt m (exec m w s) rest).map (· + 1)
+
+/-- one call of `Font.save` in an environment that does not fail: it succeeds (`true`), or it stops at the first
+step that raises — a CONTENT fault — exactly as a save whose environment fails at that step does (`failAt`) -/
+def attempt (m : Mode) (w : World) : World × Bool :=
+  match faultAt m w (plan w.font m) with
+  | none => (save m w, true)
+  | some k => (failAt m w k, false)
+
+/-- what the user does to a font between two saves -/
+inductive Edit where
+  | setGlyph (g b : Nat)      -- new content for a glyph (a new glyph if there was none): corrects it if it was bad
+  | delGlyph (g : Nat)
+  | setComp (i v : Nat)
+  | setLayerInfo (v : Nat)
+  /-- the same assignments with a value the writer will reject (a `set` in a lib, an anchor without coordinates, a
+  kerning value that is not a number …): memory takes it, every save raises at that step until it is replaced -/
+  | spoilGlyph (g b : Nat)
+  | spoilComp (i v : Nat)
+  | spoilLayerInfo (v : Nat)
+deriving DecidableEq, Repr
+
+def edit (w : World) : Edit → World
+  | .setGlyph g b =>
+    { w with font := { w.font with
+        glyphs := (g, b) :: w.font.glyphs.filter (fun x => x.1 ≠ g),
+        glyphDirty := g :: w.font.glyphDirty,
+        scheduled := w.font.scheduled.filter (· ≠ g),         -- `_insertGlyph`: no longer scheduled for deletion
+        badGlyphs := w.font.badGlyphs.filter (· ≠ g), dirty := true } }
+  | .delGlyph g =>
+    -- `_deleteGlyph`: scheduled for deletion when the glyph set the layer reads from has it
+    let onDisk := decide (g ∈ ((lookup w.disk w.font.path).getD {}).listing)
+    { w with font := { w.font with
+        glyphs := w.font.glyphs.filter (fun x => x.1 ≠ g),
+        glyphDirty := w.font.glyphDirty.filter (· ≠ g),
+        scheduled := if onDisk then g :: w.font.scheduled else w.font.scheduled,
+        badGlyphs := w.font.badGlyphs.filter (· ≠ g), dirty := true } }
+  | .setComp i v =>
+    { w with font := { w.font with
+        comps := setAt w.font.comps i v, compDirty := setAt w.font.compDirty i true,
+        badComps := w.font.badComps.filter (· ≠ i), dirty := true } }
+  | .setLayerInfo v =>
+    { w with font := { w.font with layerInfo := v, badLayerInfo := false, dirty := true } }
+  | .spoilGlyph g b =>
+    { w with font := { w.font with
+        glyphs := (g, b) :: w.font.glyphs.filter (fun x => x.1 ≠ g),
+        glyphDirty := g :: w.font.glyphDirty,
+        scheduled := w.font.scheduled.filter (· ≠ g),
+        badGlyphs := g :: w.font.badGlyphs, dirty := true } }
+  | .spoilComp i v =>
+    { w with font := { w.font with
+        comps := setAt w.font.comps i v, compDirty := setAt w.font.compDirty i true,
+        badComps := i :: w.font.badComps, dirty := true } }
+  | .spoilLayerInfo v =>
+    { w with font := { w.font with layerInfo := v, badLayerInfo := true, dirty := true } }
+
+def edits (w : World) (es : List Edit) : World := es.foldl edit w
+
+/-- what happens to a font between one completed save and the next: edits, and in-place saves that fail at some step
+(for either reason) -/
+inductive Event where
+  | edit (e : Edit)
+  | failedSave (k : Nat)
+deriving DecidableEq, Repr
+
+def event (w : World) : Event → World
+  | .edit e => edit w e
+  | .failedSave k => failAt .inPlace w k
+
+def events (w : World) (evs : List Event) : World := evs.foldl event w
 
 /-- what re-opening the UFO at `p` shows: components, and the listed glyphs with their files -/
 def reopen (w : World) (p : Nat) : Option (List Nat × List (Nat × Nat)) :=
